@@ -31,7 +31,7 @@ func TestVerifC02Acks(t *testing.T) {
 				ackErr = err
 			}
 		}
-		h := &simHist{s: s, opts: simHistOpts{MaxRounds: 7, Faults: true, Inline: true, KillAfter: true, HTTP: true, RoundDuringSubmit: true}}
+		h := &simHist{s: s, opts: simHistOpts{MaxRounds: 7, Faults: true, Inline: true, KillAfter: true, HTTP: true, RoundDuringSubmit: true, Admission: true}}
 		ntRounds := 0
 		h.afterRound = func(res *simRoundResult) error {
 			if ackErr != nil {
@@ -86,6 +86,10 @@ func TestVerifC02Acks(t *testing.T) {
 		add(h.HTTPAcks > 0, "sct-verified-over-http")
 		add(st.Crashes > 0, "crash")
 		add(st.FailedPools > 0, "failed-pool")
+		add(st.PoolSize > 0, "bounded-pool")
+		add(st.RateLimited > 0, "pool-full-rejection")
+		add(st.FatRounds > 0, "multi-MiB-round")
+		rec.Add("rate-limited-submissions", int64(st.RateLimited))
 		rec.Add("acknowledgements", int64(len(s.acks)))
 		rec.Add("scts-verified", int64(h.HTTPAcks))
 		rec.Add("inline-submissions", int64(st.InlineRun))
